@@ -15,6 +15,7 @@ CONSTANTS
     PrefixedWhiteoutLookup = TRUE
     OpaqueByMode = TRUE
     WhiteoutAttr = TRUE
+    MemWhiteoutAttr = TRUE
     WriterDropsToc = TRUE
 INIT Init
 NEXT Next
